@@ -129,6 +129,24 @@ static int next(sqfs_dir_iterator_t *base, sqfs_dir_entry_t **out)
 				sqfs_free(ent);
 				continue;
 			}
+
+			/* tar cannot express sockets. Drop them here, below the hard
+			   link filter: a second name of a socket must not come out as
+			   a hard link record to an entry the archive does not have. */
+			if (S_ISSOCK(ent->mode)) {
+				fprintf(stderr, "WARNING: %s: unsupported file type\n",
+					ent->name);
+				if (dont_skip) {
+					fputs("Not allowed to skip files, aborting!\n",
+					      stderr);
+					sqfs_free(ent);
+					it->state = SQFS_ERROR_UNSUPPORTED;
+					return SQFS_ERROR_UNSUPPORTED;
+				}
+				fprintf(stderr, "Skipping %s\n", ent->name);
+				sqfs_free(ent);
+				continue;
+			}
 			break;
 		}
 
